@@ -50,7 +50,7 @@ def norm(node) -> str:
     return " ".join(unparse(node).split())
 
 
-@dataclass
+@dataclass(eq=False)
 class Func:
     module: "Module"
     qualname: str
@@ -115,7 +115,7 @@ class Func:
         return f"<Func {self.module.name}:{self.qualname}>"
 
 
-@dataclass
+@dataclass(eq=False)
 class Module:
     name: str          # e.g. "groupby.core"
     relpath: str       # e.g. "groupby_lib/groupby/core.py"
